@@ -47,6 +47,14 @@ class GetNotes(Stream):
                         for nt in notes:
                             if nt["kind"] not in "rl" and rng.random() < 0.25:
                                 nt["dur"] = F(0)
+            if i % 6 == 1:
+                # notes with amplitude exactly 0 (set_amp(0), the niente dynamics): still notes - they are rendered with velocity 0,
+                # a continuation prolongs them and a relative note refers to them
+                for c in sc:
+                    for _, notes in c["parts"]:
+                        for nt in notes:
+                            if nt["kind"] not in "rl" and rng.random() < 0.3:
+                                nt["amp"] = 0
             yield {"score": sc}
 
     def impl(self, case):
@@ -132,6 +140,12 @@ class ToEvents(Stream):
                         for x in notes:
                             if rng.random() < 0.4:
                                 x["dur"] = rng.choice([F(1, 7), F(2, 7), F(1, 9), F(1, 16), F(3, 11), F(4, 7)])
+            if i % 6 == 1:
+                for c in sc:
+                    for _, notes in c["parts"]:
+                        for x in notes:
+                            if x["kind"] not in "rl" and rng.random() < 0.3:
+                                x["amp"] = 0
             yield {"score": sc, "tempo": rng.choice([60, 120, 120, 90, 30, 240, 72, 100])}
 
     def impl(self, case):
